@@ -134,10 +134,14 @@ def build_unit(repo, crate, fname, common_macros, prims):
     u.file = os.path.join(crate, "src", fname + ".rs")
     return u
 
-def emit_unit(u, order):
+def emit_unit(u, order, exclude=()):
     """returns (lean text, translated fn names, {fn: reason} for the untranslatable ones)"""
     out, done, skipped = [], [], {}
     out.append(f"namespace {u.namespace.split('Rngs.')[1]}")
+    order = [n for n in order if n not in exclude]
+    for n in exclude:
+        if n in u.methods:
+            skipped[n] = exclude[n] if isinstance(exclude, dict) else "excluded"
     for name in order:
         if name not in u.methods:
             continue
@@ -154,19 +158,27 @@ def emit_unit(u, order):
                     d = d.replace("def seed_from_u64 ", "def seed_from_u64 (rec_from_seed : List U8 → " + u.sinfo.lean + ") ", 1)
             else:
                 d = translate_fn(u, name)
+            missing = [m for m in re.findall(re.escape(u.namespace) + r"\.(\w+)", d) if m not in done and m != name]
+            if missing:
+                skipped[name] = f"depends on {missing[0]}, which is not translated"
+                continue
             out.append(d)
             done.append(name)
         except Unsupported as e:
             skipped[name] = str(e)
-        except (AssertionError, IndexError, KeyError, TypeError, ValueError) as e:
+        except Exception as e:
             skipped[name] = f"translator error: {e!r}"
     out.append(f"end {u.namespace.split('Rngs.')[1]}")
     return "\n".join(out), done, skipped
 
 ORDER = ["next_u32", "next_u64", "fill_bytes", "jump", "long_jump", "from_seed", "seed_from_u64"]
 
-def generate_defs(repo):
-    cm = rsfront.load(os.path.join(repo, "rand_xoshiro/src/common.rs")).macros
+def generate_defs(repo, exclude=None):
+    exclude = exclude or {}
+    try:
+        cm = rsfront.load(os.path.join(repo, "rand_xoshiro/src/common.rs")).macros
+    except Exception as e:
+        return [], {"rand_xoshiro/src/common.rs": dict(error=repr(e))}, []
     parts, report = [], {}
     units = []
     for fn in XOSHIRO_FILES:
@@ -178,11 +190,11 @@ def generate_defs(repo):
             # definitions must precede their uses: next_u64 first when next_u32 calls it
             if any(t[1] == "next_u64" for t in u.methods["next_u32"].body):
                 order = ["next_u64", "next_u32"] + ORDER[2:]
-            text, done, skipped = emit_unit(u, order)
+            text, done, skipped = emit_unit(u, order, exclude.get(u.name, {}))
             parts.append(text)
             report[u.name] = dict(file=u.file, translated=done, skipped=skipped, shape=u.shape, seed_len=u.seed_len)
             units.append(u)
-        except (Unsupported, OSError, AssertionError, IndexError, KeyError) as e:
+        except Exception as e:
             report[fn] = dict(error=repr(e))
     return parts, report, units
 
@@ -236,19 +248,21 @@ set_option maxRecDepth 4096
 namespace Rngs
 """
 
-def generate(repo):
-    parts, report, units = generate_defs(repo)
+def generate(repo, exclude=None):
+    exclude = exclude or {}
+    parts, report, units = generate_defs(repo, exclude)
     theorems = []
     for u in units:
         theorems += xo_theorems(u, report[u.name]["translated"])
     # rand_xorshift
     try:
         u = build_unit_xorshift(repo)
-        text, done, skipped = emit_unit(u, ["next_u32", "next_u64", "fill_bytes", "from_seed", "from_rng", "try_from_rng"])
+        text, done, skipped = emit_unit(u, ["next_u32", "next_u64", "fill_bytes", "from_seed", "from_rng", "try_from_rng"],
+                                        exclude.get(u.name, {}))
         parts.append(text)
         report[u.name] = dict(file=u.file, translated=done, skipped=skipped, shape=u.shape, seed_len=u.seed_len)
         theorems += xorshift_theorems(u, done)
-    except (Unsupported, OSError, AssertionError, IndexError, KeyError) as e:
+    except Exception as e:
         report["XorShiftRng"] = dict(error=repr(e))
     digest = hashlib.sha256("\n".join(parts).encode()).hexdigest()[:16]
     out = [HEADER.format(digest=digest)] + parts + ["\nnamespace ExtTie"]
